@@ -495,8 +495,6 @@ unanswered report sends no second S5F1. -/
 theorem alarm_reply_independent (s : St) (i : Id) (r1 r2 : Bool) :
     setAlarm s i r1 = setAlarm s i r2 ∧ clearAlarm s i r1 = clearAlarm s i r2 := ⟨rfl, rfl⟩
 
-example : (setAlarm (setAlarm (s5f3 (s0 false) 128 (.nums [7])).1 (.nums [7]) false).1 (.nums [7]) true).2 = .ok [] := by decide +kernel
-
 /-- an unknown alarm id raises and changes nothing -/
 theorem alarm_unknown (s : St) (i : Id) (h : s.findAlarm i = none) :
     setAlarm s i = (s, .error .valueError) ∧ clearAlarm s i = (s, .error .valueError) := by
@@ -590,6 +588,8 @@ example : (s2f15 (s0 false) [(.nums [30], .num (.int 7)), (.text "ecf", .num (.f
 example : s2f15 (s0 false) [(.nums [2], .num (.int 0)), (.nums [1], .num .nan)] = (s0 false, .code 3) := by decide +kernel
 example : s2f15 (s0 false) [(.nums [30], .num (.int 7)), (.nums [30], .other)] = (s0 false, .abort) := by decide +kernel
 example : (setAlarm (s5f3 (s0 false) 128 (.nums [7])).1 (.nums [7])).2 = .ok [⟨131, .nums [7], "hot"⟩] := by decide +kernel
+/-- an unanswered S5F1 still latches the alarm: the repeated set sends nothing -/
+example : (setAlarm (setAlarm (s5f3 (s0 false) 128 (.nums [7])).1 (.nums [7]) false).1 (.nums [7]) true).2 = .ok [] := by decide +kernel
 
 /-- **Witness (finding, code as it is, `typeCheck = false`).**  S2F15 accepts the float 1.5 for the integer-typed constant 30
 (it lies within `[0, 100]`); afterwards S2F13 — for that constant and for the whole table — is an abort instead of the reply
